@@ -51,13 +51,15 @@ static void fill_err(struct cshim_result *r, clockbound_err const *e) {
 }
 
 /* open; returns the context or NULL (error details in *r) */
+/* One error struct re-used across opens and never cleared by the caller, as a C program retrying
+ * "wait for the daemon" would do: whatever clockbound_open leaves in it is what the caller sees. */
+static clockbound_err g_open_err;
+
 void *cshim_open(char const *path, struct cshim_result *r) {
-	clockbound_err err;
 	memset(r, 0, sizeof(*r));
-	memset(&err, 0, sizeof(err));
-	clockbound_ctx *ctx = clockbound_open(path, &err);
+	clockbound_ctx *ctx = clockbound_open(path, &g_open_err);
 	if (ctx == NULL) {
-		fill_err(r, &err);
+		fill_err(r, &g_open_err);
 		return NULL;
 	}
 	r->ok = 1;
@@ -79,6 +81,16 @@ void cshim_now(void *ctx, struct cshim_result *r) {
 	r->latest_sec = out.latest.tv_sec;
 	r->latest_nsec = out.latest.tv_nsec;
 	r->status = out.clock_status;
+}
+
+/* open with a NULL error pointer ("If err is non-null, fills *err"): 1 = opened, 0 = NULL returned */
+int64_t cshim_open_null_err(char const *path) {
+	clockbound_ctx *ctx = clockbound_open(path, NULL);
+	if (ctx == NULL) {
+		return 0;
+	}
+	clockbound_close(ctx);
+	return 1;
 }
 
 int64_t cshim_close(void *ctx) {
